@@ -838,7 +838,7 @@ def biv_long_batch(ctx, methods, thorough=False):
                 if fam == 'clayton':
                     n = 150001
                 else:
-                    n = 40001 if thorough else (12001 if fam == 'frank' else 0)
+                    n = 70001 if thorough else (33001 if fam == 'frank' else 0)      # above 2^15 and 2^16 rows
             else:
                 n = 150001
             if not n:
